@@ -42,7 +42,7 @@ static double real_now()
 static FPlan derived_plan(const FPlan &p, const Result &r)
 {
     FPlan q = p;
-    if (p.prop == "C10" && p.enumerate && r.at_op >= 0 && r.at_op < (int)q.ops.size()) {
+    if ((p.prop == "C10" || p.prop == "C08") && p.enumerate && r.at_op >= 0 && r.at_op < (int)q.ops.size()) {
         q.enumerate = false;
         if (r.fault_call >= 0) {
             q.ops[r.at_op].fault_call = r.fault_call;
